@@ -126,11 +126,21 @@ def gen_term(ctx, name):
     return ctx.vars[name]
 
 
-def make_family(name, reqs):
+def put_aggs_new(n):
+    """PUT aggregates naming an aggregate that has no record yet (so that a
+    duplicate-key race on its first recording can happen)"""
+    def fn(ctx, w):
+        return app.call('PUT', RP + '/aggregates', {
+            'resource_provider_generation': ctx.int('g%d' % n),
+            'aggregates': [AGG(7)]}, version='1.36')
+    return Req('put_aggs_new%d' % n, fn, gen='g%d' % n, provider=1)
+
+
+def make_family(name, reqs, fault_kinds=None):
     def path(ctx):
         app.setup()
         pre, results, final, sched, writes = conc.run_concurrent(
-            ctx, build, reqs)
+            ctx, build, reqs, fault_kinds=fault_kinds)
         ok = [i for i, r in enumerate(results) if r.status < 400]
         for a in ok:
             for b in ok:
@@ -182,6 +192,10 @@ def families(tier):
         make_family('put_invs+put_traits', [put_invs(1), put_traits(2)]),
         make_family('put_traits+put_aggs', [put_traits(1), put_aggs(2)]),
         make_family('put_invs+put_alloc', [put_invs(1), put_alloc(2)]),
+        # a retried write (duplicate-key race while an aggregate is first
+        # recorded) with another guarded write committing in between
+        make_family('put_aggs_new+put_aggs/duplicate',
+                    [put_aggs_new(1), put_aggs(2)], fault_kinds=('duplicate',)),
     ]
     if tier == 'thorough':
         fams += [
@@ -196,6 +210,12 @@ def families(tier):
                                                  put_alloc(2)]),
             make_family('put_inv+put_alloc', [put_inv(1), put_alloc(2)]),
             make_family('reshape+put_alloc', [reshape(1), put_alloc(2)]),
+            make_family('put_aggs_new+put_traits/duplicate',
+                        [put_aggs_new(1), put_traits(2)],
+                        fault_kinds=('duplicate',)),
+            make_family('put_aggs_new+put_invs/duplicate',
+                        [put_aggs_new(1), put_invs(2)],
+                        fault_kinds=('duplicate',)),
             make_family('put_invs+put_traits+put_aggs',
                         [put_invs(1), put_traits(2), put_aggs(3)]),
         ]
